@@ -603,29 +603,62 @@ func ruleMergeCidBound(c *eng.Ctx) {
 				}
 				return true
 			})
-			isGuard := func(nd ast.Node) bool {
-				e, ok := nd.(ast.Expr)
-				if !ok || linkObj == nil {
-					return false
+			// cmpTri: the value of a comparison of the block's own link with the merged cid when the
+			// two DIFFER (Equals/== are false, != is true); Unknown for anything else.
+			cmpTri := func(e ast.Expr) eng.Tri {
+				if linkObj == nil {
+					return eng.Unknown
 				}
-				found := false
-				ast.Inspect(e, func(x ast.Node) bool {
-					switch y := x.(type) {
-					case *ast.CallExpr:
-						if se, ok := y.Fun.(*ast.SelectorExpr); ok && se.Sel.Name == "Equals" && len(y.Args) == 1 {
-							if mentionsObj(info, se.X, linkObj) && eng.ObjOf(info, y.Args[0]) == cidObj || mentionsObj(info, y.Args[0], linkObj) && mentionsObj(info, se.X, cidObj) {
-								found = true
-							}
-						}
-					case *ast.BinaryExpr:
-						if (y.Op == token.EQL || y.Op == token.NEQ) && (mentionsObj(info, y.X, linkObj) && mentionsObj(info, y.Y, cidObj) || mentionsObj(info, y.Y, linkObj) && mentionsObj(info, y.X, cidObj)) {
-							found = true
+				switch y := ast.Unparen(e).(type) {
+				case *ast.CallExpr:
+					if se, ok := y.Fun.(*ast.SelectorExpr); ok && se.Sel.Name == "Equals" && len(y.Args) == 1 {
+						if mentionsObj(info, se.X, linkObj) && mentionsObj(info, y.Args[0], cidObj) || mentionsObj(info, y.Args[0], linkObj) && mentionsObj(info, se.X, cidObj) {
+							return eng.False
 						}
 					}
-					return true
+				case *ast.BinaryExpr:
+					if (y.Op == token.EQL || y.Op == token.NEQ) && (mentionsObj(info, y.X, linkObj) && mentionsObj(info, y.Y, cidObj) || mentionsObj(info, y.Y, linkObj) && mentionsObj(info, y.X, cidObj)) {
+						return eng.TriOf(y.Op == token.NEQ)
+					}
+				}
+				return eng.Unknown
+			}
+			hasCmp := func(nd ast.Node) bool {
+				found := false
+				ast.Inspect(nd, func(x ast.Node) bool {
+					if e, ok := x.(ast.Expr); ok && cmpTri(e) != eng.Unknown {
+						found = true
+					}
+					return !found
 				})
 				return found
 			}
+			// bool locals holding the comparison (single definition)
+			held := map[types.Object]ast.Expr{}
+			defs := map[types.Object]int{}
+			ast.Inspect(fi.Decl.Body, func(x ast.Node) bool {
+				if as, ok := x.(*ast.AssignStmt); ok && len(as.Lhs) == 1 && len(as.Rhs) == 1 {
+					if o := eng.ObjOf(info, as.Lhs[0]); o != nil {
+						defs[o]++
+						if hasCmp(as.Rhs[0]) {
+							held[o] = as.Rhs[0]
+						}
+					}
+				}
+				return true
+			})
+			var atom func(e ast.Expr) eng.Tri
+			atom = func(e ast.Expr) eng.Tri {
+				if t := cmpTri(e); t != eng.Unknown {
+					return t
+				}
+				if o := eng.ObjOf(info, e); o != nil && held[o] != nil && defs[o] == 1 {
+					return eng.EvalBool(info, held[o], atom)
+				}
+				return eng.Unknown
+			}
+			// the guard is the statement or condition in which the comparison is evaluated
+			isGuard := func(nd ast.Node) bool { return hasCmp(nd) }
 			if flow == nil {
 				flow = eng.NewFlow(info, fi.Decl.Body)
 			}
@@ -634,17 +667,40 @@ func ruleMergeCidBound(c *eng.Ctx) {
 				c.Unknown(rule, construct, cl.Pos(), "publication not found in the flow graph")
 				return true
 			}
-			// every path to the publication passes the guard's condition, and the guard's mismatch branch returns
+			// (i) every path to the publication evaluates the comparison, and (ii) from the comparison
+			// on, with "the two differ" assumed, the publication is unreachable
 			unguarded := flow.ReachesWithout(pt, isGuard, nil)
-			leaves := false
-			ast.Inspect(fi.Decl.Body, func(x ast.Node) bool {
-				if is, ok := x.(*ast.IfStmt); ok && isGuard(is.Cond) && len(is.Body.List) > 0 {
-					if _, ok := is.Body.List[len(is.Body.List)-1].(*ast.ReturnStmt); ok {
-						leaves = true
+			leaves := linkObj != nil
+			for _, b := range flow.G.Blocks {
+				if !b.Live {
+					continue
+				}
+				for i, nd := range b.Nodes {
+					if !isGuard(nd) {
+						continue
+					}
+					reached := flow.Forward(eng.Point{B: b, I: i}, false, eng.Walk{
+						Visit: func(p eng.Point, _ ast.Node) eng.Action {
+							if p == pt {
+								return eng.Hit
+							}
+							return eng.Continue
+						},
+						Edge: func(cond ast.Expr, taken bool) bool {
+							switch eng.EvalBool(info, cond, atom) {
+							case eng.True:
+								return taken
+							case eng.False:
+								return !taken
+							}
+							return true
+						},
+					})
+					if reached {
+						leaves = false
 					}
 				}
-				return true
-			})
+			}
 			c.Check(!unguarded && leaves, rule, construct, cl.Pos(), "the merged cid is compared with the synced block's own link; a mismatch leaves the function",
 				"the merge is requested for a cid that is not tied to the block that was verified and synced: a request carrying a valid block under another commit's cid gets that other commit — e.g. a forged one stored by an earlier rejected delivery — merged without verification")
 			return true
